@@ -102,6 +102,7 @@ pub struct GenCfg {
     ///  wild_except     `select !{..}` over a wildcard frame (wrong without EXCLUDE: C05-wildcard-helper-leak);
     ///                  with this hazard every program uses wildcard relations
     ///  computed_key_join  a join while a sort with a computed key is in effect (C16-computed-sort-key-lowered-into-subpipeline)
+    ///  take_distinct   `take` followed by `group {all columns} (take 1)` (C01-take-then-distinct-merged)
     ///  wild_dup_join   a join of two wildcard relations that share a column name, not projected afterwards
     ///                  (C07-wildcard-join-duplicate-names); implied by the wild_except hazards
     ///  wild_except_twice   a second `select !{..}` over a wildcard frame (C05-consecutive-exclusions-forget-first)
@@ -158,6 +159,8 @@ pub struct Gen<'t, 'd> {
     pub force_right_let: Option<usize>,
     /// see gen_lets
     pub module_scheme: bool,
+    /// a sort was generated after a take of the current pipeline
+    pub resorted_after_take: bool,
     cur_src_let: bool,
     after_append: bool,
     in_sub: bool,
@@ -259,6 +262,7 @@ impl<'t, 'd> Gen<'t, 'd> {
             append_let_bottom: false,
             force_right_let: None,
             module_scheme: false,
+            resorted_after_take: false,
             cur_src_let: false,
             after_append: false,
             in_sub: false,
@@ -1679,6 +1683,28 @@ impl<'t, 'd> Gen<'t, 'd> {
         if refs.is_empty() {
             return None;
         }
+        // the distinct idiom: every column of the frame is a key, `take 1` inside
+        if self.helpers_ok()
+            && refs.len() == frame.cols.len()
+            && frame.cols.len() <= 5
+            && frame.cols.iter().all(|c| c.name.is_some())
+            // after a take the DISTINCT is merged into the SELECT of the LIMIT (finding
+            // C01-take-then-distinct-merged)
+            && (!self.had_take || self.haz("take_distinct"))
+            && self.t.chance(1, 10)
+        {
+            if self.had_take {
+                self.touch("take_distinct");
+            }
+            let keys: Vec<ColRef> = refs.iter().map(|(i, text)| ColRef { idx: *i, text: text.clone() }).collect();
+            if self.wild_prog { self.touch("wild_helpers"); }
+            for c in frame.cols.iter_mut() {
+                c.unique = false;
+            }
+            *ord = Ord::default();
+            Self::keys_first(frame, &keys);
+            return Some(Step::Group { keys, inner: vec![Step::Take { lo: None, hi: Some(1), single: true }] });
+        }
         // prefer low-cardinality keys
         let mut keys: Vec<ColRef> = vec![];
         let nk = 1 + self.t.weighted(&[4, 1]);
@@ -2006,9 +2032,10 @@ impl<'t, 'd> Gen<'t, 'd> {
                 w[6] = 0;
                 w[7] = 0;
             }
-            if self.had_take && !self.haz("resort_after_take") {
-                // `sort | take | sort | take`: the first sort+take is lost (finding C03-take-sort-take-merged)
-                w[3] = 0;
+            if self.had_take && self.resorted_after_take && !self.haz("resort_after_take") {
+                // `sort | take | sort | take`: the first sort+take is lost (finding
+                // C03-take-sort-take-merged): after a take and a new sort there is no second take
+                w[4] = 0;
             }
             if self.had_group_take && ord.ordered && !self.haz("group_take_sort_agg") {
                 // take-in-group, then sort (+take), then aggregate: finding C12-group-take-sort-aggregate
@@ -2066,7 +2093,7 @@ impl<'t, 'd> Gen<'t, 'd> {
                 if w[9] > 0 {
                     w[9] = 12;
                 }
-                if self.after_append {
+                if self.after_append && !self.append_let_bottom {
                     w[0] *= 3;
                     w[10] = w[10].max(1) * 3;
                     w[1] *= 2;
@@ -2103,6 +2130,9 @@ impl<'t, 'd> Gen<'t, 'd> {
                 self.touch("sorted_let");
             }
             if choice == 3 && self.had_take {
+                self.resorted_after_take = true;
+            }
+            if choice == 4 && self.resorted_after_take {
                 self.touch("resort_after_take");
             }
             let st = match choice {
@@ -2351,8 +2381,10 @@ impl<'t, 'd> Gen<'t, 'd> {
         let saved_gt = self.had_group_take;
         self.had_group_take = false;
         let saved_t = (self.had_take, self.ntakes);
+        let saved_rs = self.resorted_after_take;
         self.had_take = false;
         self.ntakes = 0;
+        self.resorted_after_take = false;
         if let Some((_, r)) = scaffold {
             // first reader: a slice of the sorted let-table; second reader: the joined let-table
             if ord.ordered && ord.total {
@@ -2376,6 +2408,7 @@ impl<'t, 'd> Gen<'t, 'd> {
         self.had_group_take = saved_gt;
         self.had_take = saved_t.0;
         self.ntakes = saved_t.1;
+        self.resorted_after_take = saved_rs;
         let _ = had_append;
         steps.extend(more);
         (Pipeline { source, steps }, frame, ord)
